@@ -17,3 +17,7 @@ open PebblesVerif.Merge
 #print axioms C05_perm_false
 #print axioms C05_perm_false_node
 #print axioms C05_perm_false_original
+#print axioms C05_named_type_facts
+#print axioms C05_id_exemption_exact
+#print axioms C05_node_result_exact
+#print axioms C05_before_repair_list_of_id
